@@ -50,9 +50,10 @@ def lift_float(x: float):
         raise OutsideSubset("infinite float constant")
     if x == int(x) and abs(x) < 1e15:
         return int(x)
-    fr = Fraction(x).limit_denominator(10**4)
-    if float(fr) == x:
-        return fr
+    for lim in (10**4, 10**6):
+        fr = Fraction(x).limit_denominator(lim)
+        if float(fr) == x:
+            return fr
     r = x / math.pi
     fp = Fraction(r).limit_denominator(10**4)
     if fp != 0 and abs(float(fp) * math.pi - x) <= 4e-16 * abs(x):
